@@ -27,13 +27,13 @@ open Index ImpT
 /-- every recorded import of every file with content is a star import (`pytest_plugins` entries
     are separate) -/
 def StarOnly (st : Index) : Prop :=
-  ∀ f v fr, st.content f = some v → v.parsed = some fr → ∀ imp ∈ fr.imports, imp.isStar = true
+  ∀ f v fr, st.content f = some v → v.effRec = some fr → ∀ imp ∈ fr.imports, imp.isStar = true
 
 /-- the modules `f` pulls in -/
 def succs (st : Index) (f : Path) : List Path :=
   match st.content f with
   | some v =>
-    match v.parsed with
+    match v.effRec with
     | some fr =>
       fr.imports.filterMap (fun imp => st.resolveModule imp.modulePath f) ++
       fr.plugins.filterMap (fun m => st.resolveModule m f)
@@ -84,7 +84,7 @@ theorem nested_state : ∀ (fuel : Nat) (st : Index) (f : Path) (vis : List Path
         simp only
         have hcomp : (imported.compute vis.isEmpty n st f (f :: vis) v).2.2 = st := by
           rw [htop, compute_eq]
-          cases v.parsed with
+          cases v.effRec with
           | none => rfl
           | some fr =>
             simp only
@@ -247,14 +247,14 @@ theorem absorb (st : Index) (f : Path) (vis : List Path) (n : Nat)
     exact (mem_unionNames _ _ _).mpr (Or.inl ((mem_unionNames _ _ _).mpr (Or.inr hm)))
 
 theorem mem_succs_star {st : Index} {f : Path} {v : Version} {fr : FileRec} (hc : st.content f = some v)
-    (hp : v.parsed = some fr) {imp : ImportRec} (hi : imp ∈ fr.imports) {t : Path}
+    (hp : v.effRec = some fr) {imp : ImportRec} (hi : imp ∈ fr.imports) {t : Path}
     (ht : st.resolveModule imp.modulePath f = some t) : t ∈ succs st f := by
   unfold succs
   rw [hc]; simp only [hp]
   exact List.mem_append_left _ (List.mem_filterMap.mpr ⟨imp, hi, ht⟩)
 
 theorem mem_succs_plug {st : Index} {f : Path} {v : Version} {fr : FileRec} (hc : st.content f = some v)
-    (hp : v.parsed = some fr) {m : String} (hi : m ∈ fr.plugins) {t : Path}
+    (hp : v.effRec = some fr) {m : String} (hi : m ∈ fr.plugins) {t : Path}
     (ht : st.resolveModule m f = some t) : t ∈ succs st f := by
   unfold succs
   rw [hc]; simp only [hp]
@@ -264,7 +264,7 @@ theorem mem_succs_plug {st : Index} {f : Path} {v : Version} {fr : FileRec} (hc 
 theorem expand (st : Index) (f : Path) (vis : List Path) (n : Nat) (hstar : StarOnly st)
     (hrec : ∀ t vis', vis' ≠ [] → mu st vis' < n → Res st t vis' (imported n st t vis'))
     (hmu : mu st (f :: vis) < n) (v : Version) (fr : FileRec) (hc : st.content f = some v)
-    (hp : v.parsed = some fr) :
+    (hp : v.effRec = some fr) :
     let s2 := fr.plugins.foldl (plugStep (imported n) f)
       (fr.imports.foldl (starStep (imported n) f) (([] : List String), f :: vis, st))
     FI st f vis s2 ∧ ∀ t ∈ succs st f, DoneT st s2 t := by
@@ -331,7 +331,7 @@ theorem succs_nil_of_no_content {st : Index} {f : Path} (h : st.content f = none
   unfold succs; rw [h]
 
 theorem succs_nil_of_unparsed {st : Index} {f : Path} {v : Version} (h : st.content f = some v)
-    (hp : v.parsed = none) : succs st f = [] := by
+    (hp : v.effRec = none) : succs st f = [] := by
   unfold succs; rw [h]; simp only [hp]
 
 /-- a leaf: `f` is marked visited and pulls nothing in -/
@@ -375,7 +375,7 @@ theorem nested_res (st : Index) (hstar : StarOnly st) (hcoh : Coh st) :
           omega
         have hcomp : Res st f vis (imported.compute vis.isEmpty n st f (f :: vis) v) := by
           rw [htop, compute_eq]
-          cases hp : v.parsed with
+          cases hp : v.effRec with
           | none => exact res_leaf st f vis (succs_nil_of_unparsed hc hp)
           | some fr =>
             simp only [Bool.false_eq_true, if_false]
@@ -486,7 +486,7 @@ theorem top_query (st : Index) (hstar : StarOnly st) (hcoh : Coh st) (f : Path) 
           ∀ g e, alookup c g = some e → alookup st.impCache g = some e ∨
             (g = f ∧ ∃ v', (some v : Option Version) = some v' ∧ e = (v'.text, st.version, (imported.compute true n st f [f] v).1))) := by
       rw [compute_eq]
-      cases hp : v.parsed with
+      cases hp : v.effRec with
       | none =>
         simp only [if_true]
         refine ⟨fun m => Iff.intro (fun h => nomatch h) (fun h => absurd (succs_nil_of_unparsed hc hp) (prov_succs_ne h)), ?_⟩
